@@ -208,6 +208,37 @@ namespace vh
             }
             o.str("threw", threw);
             o.num("nlin", (n_exp == 1.0) ? 1 : 0);
+            if (s.has("probe"))
+            {
+                // a history of slope-exponent requests on ONE separate eroder (valid at construction):
+                // each request is logged with whether it was refused; the object is not used further
+                std::string pr = "[";
+                try
+                {
+                    fs::spl_eroder<fg_t> probe(*h.fg, 1.0, 0.5, 1.0, 1e-3);
+                    bool first = true;
+                    for (auto& vp : s["probe"].a)
+                    {
+                        double v = vp->as_double();
+                        int refused = 0;
+                        try
+                        {
+                            probe.set_slope_exp(v);
+                        }
+                        catch (const std::exception&)
+                        {
+                            refused = 1;
+                        }
+                        pr += std::string(first ? "" : ",") + "[" + (v == 1.0 ? "1" : "0") + "," + std::to_string(refused) + "]";
+                        first = false;
+                    }
+                }
+                catch (const std::exception&)
+                {
+                    pr += "[2,2]";  // the valid construction itself was refused
+                }
+                o.raw("probe", pr + "]");
+            }
             if (er)
             {
                 note("spl erode");
